@@ -50,9 +50,72 @@ def check_positional_names(ctx, rule, call, params, where):
     ctx.check(rule, call, not bad, f"{where}: {'; '.join(bad)}: the child process runs with other settings than the in-process executor", what=f"{where}: name-like arguments at their parameters' positions")
 
 
+def _self_attrs(fn, load: bool):
+    out = set()
+    for n in own_nodes(fn):
+        if load and isinstance(n, ast.Attribute) and norm(n.value) == "self" and isinstance(n.ctx, ast.Load):
+            out.add(n.attr)
+        if not load:
+            if isinstance(n, (ast.Assign, ast.AugAssign, ast.AnnAssign)):
+                for t in n.targets if isinstance(n, ast.Assign) else [n.target]:
+                    if isinstance(t, ast.Attribute) and norm(t.value) == "self":
+                        out.add(t.attr)
+            if isinstance(n, ast.Call) and isinstance(n.func, ast.Attribute) and n.func.attr in ("append", "add", "clear", "extend", "update", "remove", "discard", "pop") and isinstance(n.func.value, ast.Attribute) and norm(n.func.value.value) == "self":
+                out.add(n.func.value.attr)
+    return out
+
+
+def _reach(meths, roots):
+    seen, todo = set(), list(roots)
+    while todo:
+        m = todo.pop()
+        if m in seen or m not in meths:
+            continue
+        seen.add(m)
+        for n in own_nodes(meths[m], include_nested=True):
+            if isinstance(n, ast.Attribute) and norm(n.value) == "self" and n.attr in meths:
+                todo.append(n.attr)
+    return seen
+
+
+def _configuration_transfer(ctx, repo) -> None:
+    """State of the in-process executor that callers configure after construction (setters) and that the
+    execution path reads must reach the executor the child process builds."""
+    base = repo.methods(repo.cls(EXE, "TestCaseExecutor"))
+    sub = repo.methods(repo.cls(SUB, "SubprocessTestCaseExecutor"))
+    init_attrs = _self_attrs(base["__init__"], load=False)
+    run_path = _reach(base, ["execute", "execute_multiple"])
+    read_on_run = set().union(*[_self_attrs(base[m], load=True) for m in run_path])
+    configurable = {}
+    for name, fn in base.items():
+        if name.startswith("__") or name in run_path:
+            continue
+        for a in _self_attrs(fn, load=False) & init_attrs & read_on_run:
+            configurable.setdefault(a, []).append(name)
+    setup = sub.get("_setup_subprocess_execution")
+    if setup is None:
+        raise AnalysisError("anchor vanished: SubprocessTestCaseExecutor._setup_subprocess_execution")
+    ctx.analysed(setup)
+    all_meths = {**base, **sub}
+    handed = set().union(*[_self_attrs(all_meths[m], load=True) for m in _reach(all_meths, ["_setup_subprocess_execution"]) if m not in run_path or m == "_yield_remote_observers"])
+    if not configurable:
+        raise AnalysisError("no configurable execution state found on TestCaseExecutor")
+    for attr, setters in sorted(configurable.items()):
+        ctx.check("C31.transfer", setup, attr in handed, f"`self.{attr}` is set through {sorted(setters)} and read while a test case executes, but _setup_subprocess_execution does not hand it to the child process: the executor built there starts from the configuration defaults, so the same test case is executed differently in a subprocess (with set_instrument(True), the assertion observer finds uninstrumented assertion code, the worker thread dies and the result is a timeout with an empty trace)", what=f"{attr} ({', '.join(sorted(setters))}) reaches the child", stmt=f"[transfer] {attr}")
+    # and the child applies what it was handed: every parameter of the child function is used
+    child = sub.get("_execute_test_cases_in_subprocess")
+    used = {n.id for n in ast.walk(child) if isinstance(n, ast.Name) and isinstance(n.ctx, ast.Load)}
+    for a in [*child.args.posonlyargs, *child.args.args, *child.args.kwonlyargs]:
+        if a.arg.startswith("_"):
+            continue
+        ctx.check("C31.transfer", child, a.arg in used, f"the child process receives `{a.arg}` and never uses it", what=f"child uses {a.arg}", stmt=f"[used] {a.arg}")
+
+
 def check(ctx) -> None:
     repo = ctx.repo
     ctx.rule("C31.args", "positional arguments named like a parameter of the callee are at that parameter's position (process args, inner executor construction)", floor=2)
+    ctx.rule("C31.transfer", "sibling agreement: every attribute of TestCaseExecutor that a setter can change after construction and that the execution path reads is handed to the child process by _setup_subprocess_execution, and the child uses every parameter it receives", floor=10)
+    _configuration_transfer(ctx, repo)
     ctx.rule("C31.pipe", "the tuple sent by the child and the names unpacked by the parent agree in length and role; the RNG state sent is installed; results are zipped with the bindings they were created from", floor=4)
     ctx.rule("C31.state", "ExecutionTracer.state getter and setter use the same keys", floor=1)
     ctx.rule("C31.fix", "_fix_result_for_pickle has a filter and a clear handler for every ExecutionResult field that can carry SUT objects", floor=6)
